@@ -41,6 +41,48 @@ theorem lookup2Y_spec (st : St) (reexec isDef : Bool) (x ok : Name) (m : LExp) (
         | error e => rfl
         | ok r => cases r <;> rfl
 
+/-- `l = <-c` / `x := <-c`: since commit 177a151 of the repository the received value is assigned (declared) like any other value -/
+theorem recvY_spec (st : St) (isDef : Bool) (l : LExp) (r : RExp) :
+    recvY share st isDef l r = Spec.recv st isDef l r := by
+  unfold recvY Spec.recv
+  cases isDef with
+  | true =>
+    simp only [if_true]
+    cases l with
+    | var x =>
+      simp only [Spec.define, bind, Except.bind]
+      rcases evalSlot_cases st r with ⟨e, h1, h2⟩ | ⟨s, st1, v, h1, h2, h3, _⟩
+      · simp [h1, h2]
+      · simp [h1, h2, h3, Spec.declare]
+    | field l i => rfl
+    | index l i => rfl
+    | deref l => rfl
+  | false =>
+    simp only [Bool.false_eq_true, if_false, share_recvAssignsValue, if_true, Spec.assign, bind, Except.bind]
+    cases resolve st l with
+    | error e => rfl
+    | ok d =>
+      simp only
+      rcases evalSlot_cases st r with ⟨e, h1, h2⟩ | ⟨s, st1, v, h1, h2, h3, _⟩
+      · simp [h1, h2]
+      · simp [h1, h2, h3]
+
+theorem assertFresh_share (reexec isDef rd : Bool) : assertFresh share reexec isDef rd = (isDef && !rd) := by
+  cases rd <;> simp [assertFresh, share_assertDefineFresh, share_lookup2RedeclInPlace]
+
+/-- `x, ok = e.(T)` and `x, ok := e.(T)`, holding or failing, on every execution (commit 2fe0a18 of the repository) -/
+theorem assert2Y_spec (st : St) (reexec isDef : Bool) (x ok : Name) (r : RExp) (succ : Bool) (zero : Val) (rdx rdok : Bool) :
+    assert2Y share reexec st isDef x ok r succ zero rdx rdok = Spec.assert2 st isDef x ok r succ zero rdx rdok := by
+  unfold assert2Y Spec.assert2
+  simp only [bind, Except.bind, share_assertZeroOnFail, if_true, assertFresh_share, setOrFresh_spec]
+  cases succ with
+  | false => simp
+  | true =>
+    simp only [if_true]
+    rcases evalSlot_cases st r with ⟨e, h1, h2⟩ | ⟨s, st1, v, h1, h2, h3, _⟩
+    · simp [h1, h2]
+    · simp [h1, h2, h3]
+
 /-- one statement: the mechanism computes the specification's state — every statement of the language, first or
     repeated execution -/
 theorem sopY_spec (G : Growth) (st : St) (o : SOp) (reexec : Bool) : sopY share G reexec st o = Spec.sop G st o := by
@@ -56,6 +98,8 @@ theorem sopY_spec (G : Growth) (st : St) (o : SOp) (reexec : Bool) : sopY share 
   | mapSet m k r => exact mapSetY_spec st m k r
   | mapDel m k => rfl
   | lookup2 isDef x ok m k zero rdx rdok => exact lookup2Y_spec st reexec isDef x ok m k zero rdx rdok
+  | recv isDef l r => exact recvY_spec st isDef l r
+  | assert2 isDef x ok r succ zero rdx rdok => exact assert2Y_spec st reexec isDef x ok r succ zero rdx rdok
   | callMut isDef l sel k arg => exact callMutY_spec st isDef l sel k arg
   | «show» xs => rfl
 
